@@ -644,12 +644,13 @@ class C10Machine(_BatchBase):
                         gc = np.asarray(cnt_row.values[:n], dtype=float)
                         gcen = np.asarray(cen_row.values[:n], dtype=float)
                         inside = int(np.sum((np.asarray(hand[:, ch]) >= edges[0]) & (np.asarray(hand[:, ch]) <= edges[-1])))
-                        if np.array_equal(gc, counts.astype(float)) and np.array_equal(gcen, centers) and \
+                        if np.array_equal(gc, counts.astype(float)) and np.array_equal(gcen, centers, equal_nan=True) and \
                                 int(gc.sum()) == inside and pd.isnull(cnt_row.values[n:]).all():
                             okh = True
                             break
                         why = 'scale %s: counts equal %s, centers equal %s, sum %s vs events inside %s' % (
-                            sc, np.array_equal(gc, counts.astype(float)), np.array_equal(gcen, centers), gc.sum(), inside)
+                            sc, np.array_equal(gc, counts.astype(float)), np.array_equal(gcen, centers, equal_nan=True),
+                            gc.sum(), inside)
                     if not okh:
                         V.append(violation('C10/hist', '%s' % (u.strip().lower()), 'row %s channel %s: %s' % (s['ID'], ch, why)))
                     bump(out['probes'], 'histogram_rows_checked')
